@@ -88,11 +88,11 @@ Theorem C17_stratify_with :
      \/ forallb (fun ne => existsb (fun f => String.eqb (f_name f) (fst ne)) (m_flows m)) (s_fadj s) = false
      \/ forallb (fun ne => let '(_, sf, df) := snd ne in strata_exist m sf && strata_exist m df) (s_fadj s) = false
      \/ forallb (fun ce => mem_str (fst ce) (m_orig m)) (s_iadj s) = false
-     \/ (exists mm, s_mix s = Some mm /\ list_str_eqb (s_comps s) (m_orig m) = false)
+     \/ (exists mm, s_mix s = Some mm /\ set_eq_str (s_comps s) (m_orig m) = false)
      \/ (is_strain (s_kind s) = true /\ existsb (fun s' => is_strain (s_kind s')) (m_strats m) = true)
      \/ forallb (fun c => mem_str c (m_orig m)) (s_comps s) = false
      \/ (is_age (s_kind s) = true /\ existsb (fun s' => is_age (s_kind s')) (m_strats m) = true)
-     \/ (is_age (s_kind s) = true /\ list_str_eqb (s_comps s) (m_orig m) = false)) ->
+     \/ (is_age (s_kind s) = true /\ set_eq_str (s_comps s) (m_orig m) = false)) ->
     rejected (stratify_with m s0).
 Proof.
   intros m s0 Hv s [H|[H|[H|[H|[[mm [H1 H2]]|[[H1 H2]|[H|[[H1 H2]|[H1 H2]]]]]]]]].
